@@ -626,7 +626,9 @@ class NameRecord(object):
         self.platformID = safeEval(attrs["platformID"])
         self.platEncID = safeEval(attrs["platEncID"])
         self.langID = safeEval(attrs["langID"])
-        s = strjoin(content).strip()
+        # only strip XML white space (the indentation added by toXML), not
+        # e.g. a no-break space that is part of the name
+        s = strjoin(content).strip(" \t\r\n")
         encoding = self.getEncoding()
         if self.encodingIsUnicodeCompatible() or safeEval(
             attrs.get("unicode", "False")
